@@ -172,6 +172,10 @@ def deleteChain (g : G) : Nat → Nat → List Nat → G
           | [] => g
           | h :: restRev => deleteChain g fuel h restRev.reverse
 
+/-- enough fuel for `deleteChain` (the Rust loop is unbounded): every iteration pops one pending entry,
+and at most one entry per incoming edge of a removed and-node is ever pushed -/
+def deleteFuel (g : G) : Nat := (g.ins.toList.map List.length).sum + g.kind.size + 1
+
 def elimNode (g : G) (nx : Nat) : G :=
   let rec go : List Nat → G → G
     | [], g => g
@@ -187,7 +191,7 @@ def elimNode (g : G) (nx : Nat) : G :=
         | some .fls =>
             (match g.kindOf nx with
              | some .or => go cs (g.removeEdge nx c)
-             | some .and => deleteChain g (g.kind.size + 1) nx []      -- nx is gone: its walker yields nothing more
+             | some .and => deleteChain g (deleteFuel g) nx []      -- nx is gone: its walker yields nothing more
              | none => { g with err := true }
              | _ => { g with err := true })
         | _ => go cs g
